@@ -106,10 +106,11 @@ PROPS = {
         "scale": {"quick": 1, "thorough": 40},
         "floors": {
             "quick": {"smooth_calls": 5000, "inputs_skipping_levels": 2000, "complemented_roots": 1500, "counts_real": 4000,
-                      "counts_finite_field": 4000, "model_counts": 4000, "exh3_orders": 6},
+                      "counts_finite_field": 4000, "model_counts": 4000, "exh3_orders": 6,
+                      "smooth_calls_after_earlier_calls_in_the_same_builder": 4000},
             "thorough": {"smooth_calls": 100000},
         },
-        "rule": "One evaluation = one smooth(f, k) call (f and its negation) checked four ways: the result's truth table (structural walk) equals f's; every root-to-terminal path tests var_at_level(0..k-1) exactly once and in order (structural path walk); unsmoothed_wmc under random NON-normalised small-integer weights in the real semiring and random residues in the 64-bit field equals the brute-force weighted sum over models computed from the truth table; under unit weights it equals the number of models. Regime exh3 enumerates all 256 functions of 3 variables under all 6 orders; rand draws functions on <= 8 variables (parity, ite(x,g,!g), threshold, random), forces them to skip levels at the top, in the middle and at the bottom, and also smooths over only the first k < n levels, mostly with f independent of the later ones (S9: then the counts are checked too), sometimes with f mentioning deeper levels (then only function preservation and the per-path invariant for the first k levels are asserted). Non-trivial = the function is not a constant/literal or it skips at least one level; distinct = distinct (function, order, k).",
+        "rule": "One evaluation = one smooth(f, k) call (f and its negation) checked four ways: the result's truth table (structural walk) equals f's; every root-to-terminal path tests var_at_level(0..k-1) exactly once and in order (structural path walk); unsmoothed_wmc under random NON-normalised small-integer weights in the real semiring and random residues in the 64-bit field equals the brute-force weighted sum over models computed from the truth table; under unit weights it equals the number of models. Regime exh3 enumerates all 256 functions of 3 variables under all 6 orders; rand draws functions on <= 8 variables (parity, ite(x,g,!g), threshold, random), forces them to skip levels at the top, in the middle and at the bottom, and also smooths over only the first k < n levels, mostly with f independent of the later ones (S9: then the counts are checked too), sometimes with f mentioning deeper levels (then only function preservation and the per-path invariant for the first k levels are asserted). Regime multi issues 2-10 smooth calls in ONE builder on functions that share sub-diagrams, each over a different number of levels (and the same function again over more levels), so that a call cannot depend on what earlier calls left behind. Non-trivial = the function is not a constant/literal or it skips at least one level; distinct = distinct (function, order, k).",
         "exhaustive_note": "all Boolean functions of 3 variables x all 6 orders x {f, not f} are enumerated; larger inputs are sampled",
         "assumptions": ASSUME_COMMON + ["S9: smooth(f,k) is only called with f over the first k levels of the order"],
     },
@@ -221,11 +222,12 @@ PROPS = {
         "scale": {"quick": 1, "thorough": 30},
         "floors": {
             "quick": {"c_calls": 5000, "c_eq_pairs": 100000, "c_wmc": 15000, "c_model_counts": 5000, "c_weight_roundtrips": 2000,
-                      "c_frontend_calls": 2500, "c_compose": 300, "c_new_var": 30, "c_ite": 1000},
+                      "c_frontend_calls": 2500, "c_compose": 300, "c_new_var": 30, "c_ite": 1000,
+                      "c_weights_overwritten_between_counts": 400},
             "thorough": {"c_calls": 150000},
         },
         "sanitizers": ["miri_ffi", "asan_ffi", "valgrind_ffi"],
-        "rule": "One evaluation = one call of an exported extern \"C\" symbol (linked from the crate built with the ffi feature and declared in the harness exactly as a C client would), mirrored by the corresponding native call on a native builder. Regime bdd_api: random call sequences on one manager (mk_bdd_manager_default_order or robdd_builder_all_table over var_order_new with a random order): bdd_var, bdd_new_var / bdd_new_label, bdd_and, bdd_or, bdd_ite (also as xor/iff), bdd_negate, bdd_compose, bdd_true/false; after every call the diagram is observed ONLY through bdd_is_true/false, bdd_topvar, bdd_low, bdd_high and must denote the oracle's truth table and have exactly the native diagram's expanded structure; at the end: bdd_eq over all pool pairs == native eq == function equality; bdd_is_const, bdd_count_nodes, bdd_to_json (== native serialiser string), print_bdd, scratch accessors; robdd_model_count == number of models over the manager's current variables; bdd_wmc / bdd_wmc_complex / bdd_wmc_poly (weights marshalled through wmc_param_*_set_weight, read back through *_var_weight, weight_*_lo/hi, polynomial_len, polynomial_get_coeffs) bit-identical to the native counts and exactly equal to the oracle's unsmoothed count. Regime frontends: literal_new, cnf_new (also on clause lists containing empty clauses), cnf_from_dimacs, cnf_min_fill_order, var_order_linear/new, robdd_builder_compile_cnf, dtree_from_cnf, vtree_from_dtree, sdd_builder_new/compile_cnf, sdd_wmc, ddnnf_builder_new/compile_cnf_topdown agree with their native counterparts and the CNF's truth table. Non-trivial = function neither constant nor literal; distinct = distinct (function, operation, order).",
+        "rule": "One evaluation = one call of an exported extern \"C\" symbol (linked from the crate built with the ffi feature and declared in the harness exactly as a C client would), mirrored by the corresponding native call on a native builder. Regime bdd_api: random call sequences on one manager (mk_bdd_manager_default_order or robdd_builder_all_table over var_order_new with a random order): bdd_var, bdd_new_var / bdd_new_label, bdd_and, bdd_or, bdd_ite (also as xor/iff), bdd_negate, bdd_compose, bdd_true/false; after every call the diagram is observed ONLY through bdd_is_true/false, bdd_topvar, bdd_low, bdd_high and must denote the oracle's truth table and have exactly the native diagram's expanded structure; at the end: bdd_eq over all pool pairs == native eq == function equality; bdd_is_const, bdd_count_nodes, bdd_to_json (== native serialiser string), print_bdd, scratch accessors; robdd_model_count == number of models over the manager's current variables; bdd_wmc / bdd_wmc_complex / bdd_wmc_poly (weights marshalled through wmc_param_*_set_weight, read back through *_var_weight, weight_*_lo/hi, polynomial_len, polynomial_get_coeffs) bit-identical to the native counts and exactly equal to the oracle's unsmoothed count; the counts run in 1-3 rounds, and between rounds a third of the weights of the SAME C weight tables are overwritten through the C setters (count, set_weight, count again). Regime frontends: literal_new, cnf_new (also on clause lists containing empty clauses), cnf_from_dimacs, cnf_min_fill_order, var_order_linear/new, robdd_builder_compile_cnf, dtree_from_cnf, vtree_from_dtree, sdd_builder_new/compile_cnf, sdd_wmc, ddnnf_builder_new/compile_cnf_topdown agree with their native counterparts and the CNF's truth table. Non-trivial = function neither constant nor literal; distinct = distinct (function, operation, order).",
         "assumptions": ASSUME_COMMON + ["the harness's extern declarations mirror the C prototypes (repr(C) structs re-declared with the same layout)", "the API has no free function for diagram handles: leak checking is off for this workload (S15)"],
     },
 }
